@@ -30,7 +30,7 @@ ASSUMPTIONS = ["in the dask path pyxel executes the first assignment one extra t
                "custom tables are generated with exactly the needed columns (column_range end is label-inclusive)"]
 REQUIRED_COUNTERS = ["spaces", "runs_expected", "runs_observed", "positions_resolved", "cells_compared",
                      "mode_product", "mode_sequential", "mode_custom", "exec_dask", "exec_seq",
-                     "vector_params", "colliding_short_names", "disabled_params", "numpy_expressions",
+                     "vector_params", "colliding_short_names", "unique_before_colliding_dask", "disabled_params", "numpy_expressions",
                      "second_runs_on_same_objects"]
 TIMEOUT = {"quick": 900, "thorough": 3600}
 LEVEL_TEXT = ("Exploration by runtime monitoring: each generated parameter space is executed by the real Observation "
@@ -122,14 +122,22 @@ def gen_values(rng, key, n):
     return rng.sample([0.125, 0.75, 1.5, 2.25, 10.5, 33.0, -4.5], n), None
 
 
-def gen_space(rng):
+def gen_space(rng, layout=None):
+    """layout='unique-first': a product space whose colliding pair (m1.a, m2.a) is listed AFTER a parameter
+    with a unique short name, all enabled - the layout in which the order of the dimension-name mapping and the
+    order of 'parameters' can drift apart."""
     groups = rng.sample([g for g in build.GROUPS], 2) if rng.random() < 0.5 else [rng.choice(build.GROUPS)] * 2
     g1, g2 = groups
     keys_all = [k.format(g1=g1, g2=g2) for k in DEFAULTS]
     defaults = {k.format(g1=g1, g2=g2): v for k, v in DEFAULTS.items()}
     mode = rng.choice(["product", "product", "sequential", "custom"])
     k = rng.randint(1, 4)
-    if rng.random() < 0.35:  # force colliding short names
+    if layout == "unique-first":
+        mode = "product"
+        pair = [x for x in keys_all if x.endswith(".a")]
+        uniq = rng.choice([x for x in keys_all if x.endswith((".b", ".cfg.g")) and ".m1." in x])
+        keys = [uniq, *pair] if rng.random() < 0.5 else [pair[0], uniq, pair[1]]
+    elif rng.random() < 0.35:  # force colliding short names
         pair = [x for x in keys_all if x.endswith(".a")]
         rest = rng.sample([x for x in keys_all if x not in pair], max(0, k - 2))
         keys = pair + rest
@@ -138,9 +146,9 @@ def gen_space(rng):
         keys = rng.sample(keys_all, k)
     params = []
     for key in keys:
-        n = rng.randint(1, 5)
+        n = rng.randint(2, 3) if layout else rng.randint(1, 5)
         vals, expr = gen_values(rng, key, n)
-        params.append({"key": key, "values": vals, "expr": expr, "enabled": rng.random() < 0.8})
+        params.append({"key": key, "values": vals, "expr": expr, "enabled": layout is not None or rng.random() < 0.8})
     if not any(p["enabled"] for p in params):
         params[0]["enabled"] = True
     if mode == "product":  # keep the Cartesian product below ~48 runs
@@ -163,10 +171,22 @@ def gen_space(rng):
             params.append({"key": f"pipeline.{g2}.m2.arguments.b", "values": [0.5 + i for i in range(nrows)],
                            "expr": None, "enabled": True})
     return {"g1": g1, "g2": g2, "defaults": defaults, "mode": mode, "params": params,
-            "dask": rng.random() < 0.5, "two_steps": rng.random() < 0.2}
+            "dask": layout is not None or rng.random() < 0.5, "two_steps": rng.random() < 0.2}
 
 
 # ------------------------------------------------------------------ oracle (no pyxel)
+def unique_before_colliding(space):
+    """True when an enabled parameter with a unique short name is listed before one whose short name collides."""
+    en = [p["key"].split(".")[-1] for p in space["params"] if p["enabled"]]
+    dup = {n for n in en if en.count(n) > 1}
+    seen_unique = False
+    for n in en:
+        if n in dup and seen_unique:
+            return True
+        seen_unique = seen_unique or n not in dup
+    return False
+
+
 def enumerate_runs(space):
     en = [p for p in space["params"] if p["enabled"]]
     if space["mode"] == "product":
@@ -310,6 +330,7 @@ def run_space(rec, index, space):
     rec.count(f"mode_{mode}")
     rec.count("exec_dask" if dask else "exec_seq")
     rec.count("vector_params", sum(1 for p in en if p["key"].endswith(".v")))
+    rec.count("unique_before_colliding_dask" if dask else "unique_before_colliding_seq", int(unique_before_colliding(space)))
     rec.count("colliding_short_names", 1 if len(set(k.split('.')[-1] for k in names)) < len(names) else 0)
     rec.count("disabled_params", sum(1 for p in space["params"] if not p["enabled"]))
     rec.count("numpy_expressions", sum(1 for p in en if p["expr"]))
@@ -469,4 +490,4 @@ def run_shard(spec, rec):
     for i in range(spec["n"]):
         if not rec.wanted(i):
             continue
-        run_space(rec, i, gen_space(rec.rng(i)))
+        run_space(rec, i, gen_space(rec.rng(i), layout="unique-first" if i == 0 else None))
